@@ -6,7 +6,7 @@ import itertools
 import re
 
 from ..loader import const_eval, AnalysisError, dotted, norm, walk_no_defs
-from ..minieval import MiniEval, Obj, Unsupported
+from ..minieval import MiniEval, Obj, Unsupported, module_constants
 from ..regexlang import Unsupported as RxUnsupported
 from ..regexlang import compile_nfa, included
 from ..report import RuleReport
@@ -57,11 +57,8 @@ def _with_helpers(a, ev):
     for name, f in mod.functions.items():
         if name not in ev.calls and not f.decorators:
             ev.globals.setdefault(name, ('<func>', f.node, {}))
-    for name, val in mod.assigns.items():
-        try:
-            ev.globals.setdefault(name, const_eval(val))
-        except ValueError:
-            pass
+    for name, val in module_constants(mod).items():
+        ev.globals.setdefault(name, val)
     return ev
 
 
